@@ -278,6 +278,11 @@ def FailsNow (env : Env) (s : State E) : Prop := handlesNow env s = true ∧ ¬ 
     failure; exhausted retries/timeouts are final by themselves) -/
 def AllFinal (env : Env) : Prop := ∀ i n, (env.exec i n).final = true
 
+/-- "handlers stop failing" as the property's quantifier has it — "every handler outcome script with FINITELY MANY
+    failures": from some retry number on, every invocation of every handler yields a final outcome. (`AllFinal` is
+    the case `N = 0`.) -/
+def FinitelyFailing (env : Env) : Prop := ∃ N : Nat, ∀ i n, N ≤ n → (env.exec i n).final = true
+
 /-- All stored records of the owned handlers carry the same purpose: an invariant of every handling
     pass (`Kopf.C02.uniform_preserved`), true of an object without records. (Same as `C02.UniformOn`.) -/
 def Uniform (env : Env) (s : State E) : Prop :=
@@ -346,5 +351,50 @@ def closings (env : Env) : Nat → State E → Nat
   | n + 1, s =>
       (if s.pending && !s.gone && (decisionOf env s).handlersRun && (pass env s).closed then 1 else 0)
         + closings env n (loopStep env s)
+
+/-! ### C08's carried patch, as far as this loop is concerned -/
+
+/-- `memory.remaining_patch` at the start of a cycle: transformation functions of a HANDLER (`patch.fns`) whose
+    JSON-patch was rejected with HTTP 422 in the cycle before (the framework's own finalizer functions are not carried
+    since repo fix 1c8f3dd). HOW it gets there is C08's transport and not modelled; here only what the cycle that
+    starts with it does to the loop. `ops`: the functions still yield operations on the newer body; `noop`: they
+    yield none (the change they conflicted with has fulfilled them). -/
+inductive Carried where
+  | none | ops | noop
+  deriving DecidableEq, Repr
+
+/-- One turn of the loop that starts with a carried patch. `patch_initially_empty` is false, so — unless the turn is
+    dedicated to the finalizer, or the framework is blind to the object — `process_resource_causes` skips the
+    state-dependent handlers ("exit to PATCHing": the re-sent patch is expected to bring the next event): no pass, no
+    release. `application.apply` then sends the functions' JSON-patch (`ops`: one request that changes the object, its
+    echo is the next event) or has nothing to send (`noop`: since repo fix b7bf39c "no request" is not taken for a
+    change, but there are no delays either — the handlers did not run — so no sleep, no touch: NO EVENT FOLLOWS).
+    The carried patch is cleared either way. -/
+def loopStepC (env : Env) (c : Carried) (s : State E) : State E :=
+  if c = .none || !s.pending || s.gone || adjusting env s || !env.prematch then loopStep env s
+  else if c = .ops then
+    { s with now := s.now + (if env.constPatch then env.rtt else 0) + env.lat, pending := true,
+             writes := s.writes + cp env + 1 }
+  else { s with pending := false, writes := s.writes + cp env }
+
+/-! ### instances shared by the witnesses in Props and the driver -/
+
+def okOutcome : C02.Outcome := { final := true, delay := none, error := false, subrefs := [] }
+
+/-- a freshly created live object nobody has handled yet -/
+def stateN : State Nat :=
+  { P := fun _ => none, base := none, ess := 0, marked := false, blocked := false, gone := false,
+    noticed := false, fullyHandled := false, resumed := [], now := 0, pending := true, writes := 0 }
+
+/-- An operator with ONE mandatory deletion handler whose filter reads the framework's own finalizer: it matches
+    only while the object carries no finalizer (`@kopf.on.delete(..., field='metadata.finalizers',
+    value=kopf.ABSENT)`): prematch and the finalizer requirement follow `blocked`. The environment is a function
+    of the state: outside the guard `FiltersStable`. -/
+def envOfU (s : State Nat) : Env :=
+  { owned := ["d0"], subs := [], sel := fun c => if c.reason = .delete then ["d0"] else [],
+    initialH := fun _ => false,
+    limits := fun _ => ⟨none, none⟩, lifecycle := .asap, exec := fun _ _ => okOutcome,
+    prematch := !s.blocked, changeReq := !s.blocked, foreignFins := false, constPatch := false,
+    lat := 1, rtt := 1, cap := 38400 }
 
 end Kopf.C03
